@@ -586,6 +586,15 @@ def scenario(w):
             if any(n in M.unspecified for n in con.metrics):
                 continue
             eff = conds if how == 'conditions' else (M.conditions if how == 'subset' else None)
+            if eff is not None and any(Model.parse(c)[0] in M.aug or Model.parse(c)[0] in M.unspecified
+                                       or Model.parse(c)[0] not in M.metrics for c in eff):
+                # the stored conditions refer to a metric that has since been recomputed in augmented mode (or
+                # is unspecified): the model has no exact values for it, so only cache on/off agreement is judged
+                if r[0][1] is None and r[1][1] is None and not (list(r[0][0].columns) == list(r[1][0].columns)
+                                                                 and len(r[0][0]) == len(r[1][0])):
+                    w.violation('cache-dependence', 'export', 'export %s differs between cache on and off' % how)
+                    return
+                continue
             for (df, e), label, cobj in zip(r, ('cache-on', 'cache-off'), (con, coff)):
                 if e is not None:
                     w.violation('export', 'raised:' + how, 'get_metric_dataframe(%r) raised %r (history: %s)' % (kw, e, hist))
